@@ -42,7 +42,9 @@ def _cfg_c01(r):
 
 
 def _cfg_c02(r):
-    return D.Cfg(n_rel=r.randint(1, 3), n_pr=0, steps=r.choice([80, 140, 220]), p_drop=r.choice([0.1, 0.2, 0.35]),
+    # (a third of the programs share the association with a partially reliable channel: what that
+    #  abandons must not keep reliable traffic from draining - reported with the C02 clause names)
+    return D.Cfg(n_rel=r.randint(1, 3), n_pr=r.choice([0, 0, 1]), steps=r.choice([80, 140, 220]), p_drop=r.choice([0.1, 0.2, 0.35]),
                  p_dup=r.choice([0.0, 0.05]), p_fire=r.choice([0.03, 0.08, 0.15]), p_app=0.3,
                  max_msgs=r.choice([12, 20, 40]), burst=r.choice([4, 8, 8, 12]),
                  sizes=[10, 10, 1200, 1200, 2400, 3600, 100, 0, 12000],
@@ -62,7 +64,7 @@ def _cfg_c13(r):
                  steps=r.choice([60, 100, 160]), p_drop=r.choice([0.0, 0.08, 0.2]), p_dup=r.choice([0.0, 0.05]),
                  p_fire=0.04, p_app=0.25, p_close=r.choice([0.03, 0.06, 0.1]), p_thr=0.05,
                  early_ops=r.random() < 0.5, handshake_faults=r.random() < 0.3, unicode_labels=True,
-                 burst=r.choice([0, 4]), max_msgs=16, protect_reconfig=r.random() < 0.85,
+                 burst=r.choice([0, 4]), max_msgs=16, protect_reconfig=r.random() < 0.4,
                  origin_a=r.choice(D.ORIGINS), origin_b=r.choice(D.ORIGINS))
 
 
@@ -117,8 +119,8 @@ def _random_batch(args):
         tr = D.random_ops(r, cfg)
         tr["focus"] = p["focus"]
         tr["meta"] = {"src": "random", "k": k}
-        if prop == "C01":
-            tr["pr"] = False      # name damage to reliable channels C01.* even when PR channels exist
+        if prop in ("C01", "C02"):
+            tr["pr"] = False      # name damage to reliable channels C01.* / C02.* even when PR channels exist
         if prop == "C17":
             ref = tr["events"]
             tr["ref"] = ref
@@ -365,12 +367,12 @@ DCL_INV = ["EventsOnce", "IdParity", "NoCollision", "Faithful", "NoBad", "EndClo
 DCL_WIT = ["W_NeverBothClosed", "W_NoIdReuse", "W_NoMessage"]
 DCL_DEVS = [("AckReopens", "StateForward"), ("ResetBeforeAck", "CloseCompleteWhenQuiet"),
             ("CloseNoIdQueuesReset", "NoBad"), ("QueuedNotClosedAtEnd", "EndClosesAll"),
-            ("LossyReconfig", "CloseCompleteWhenQuiet")]
+            ("NoReconfigRetx", "CloseCompleteWhenQuiet")]
 
 
-def _dcl_cfg(maxobj, creates, sends, reuse, dev=(), inv=DCL_INV, forward=True, spec="Spec", props=()):
+def _dcl_cfg(maxobj, creates, sends, reuse, dev=(), inv=DCL_INV, forward=True, spec="Spec", props=(), loss=1):
     lines = ["SPECIFICATION " + spec, "CONSTANTS", " MaxObj = %d" % maxobj, " MaxApiCreate = %d" % creates,
-             " MaxSend = %d" % sends, " AllowReuse = %s" % ("TRUE" if reuse else "FALSE"),
+             " MaxSend = %d" % sends, " AllowReuse = %s" % ("TRUE" if reuse else "FALSE"), " MaxLoss = %d" % loss,
              " Dev = {%s}" % ", ".join('"%s"' % d for d in dev)]
     lines += ["INVARIANT " + i for i in inv]
     if forward:
@@ -432,19 +434,20 @@ def _dcl_lockstep_stage(prop, thorough, sd):
     out = {}
     traces = []
     n = 1500 if thorough else 200
-    faithful = [("plain", False, []), ("id-reuse", True, []), ("reconfig-loss", False, ["LossyReconfig"])]
-    sens = ["AckReopens", "ResetBeforeAck", "CloseNoIdQueuesReset", "QueuedNotClosedAtEnd"]
+    faithful = [("plain", False, 0), ("id-reuse", True, 0), ("reconfig-loss", False, 2), ("reconfig-loss-id-reuse", True, 1)]
+    sens = ["AckReopens", "ResetBeforeAck", "CloseNoIdQueuesReset", "QueuedNotClosedAtEnd", "DupRequestReprocessed"]
     behs = {}
     with T.Scratch() as sc:
-        for name, reuse, dev in faithful:
-            r, b = T.simulate(sc, "DcLifecycle", _dcl_cfg(4, 3, 2, reuse=reuse, dev=dev, inv=[], forward=False, spec="SimSpec"),
+        for name, reuse, loss in faithful:
+            r, b = T.simulate(sc, "DcLifecycle", _dcl_cfg(4, 3, 2, reuse=reuse, loss=loss, inv=[], forward=False, spec="SimSpec"),
                               num=n, depth=40, seed=sd + len(behs), timeout=900)
             if not b:
                 raise T.MachineryError("no simulated lifecycle behaviours (%s)\n%s" % (name, r.out[-800:]))
             behs[name] = b
         for d in sens:
-            r, b = T.simulate(sc, "DcLifecycle", _dcl_cfg(4, 3, 2, reuse=False, dev=[d], inv=[], forward=False, spec="SimSpec"),
-                              num=150, depth=40, seed=sd + 7, timeout=600)
+            r, b = T.simulate(sc, "DcLifecycle", _dcl_cfg(4, 3, 2, reuse=(d == "DupRequestReprocessed"), dev=[d], inv=[], forward=False,
+                                                         spec="SimSpec", loss=2),
+                              num=600 if d == "DupRequestReprocessed" else 150, depth=40, seed=sd + 7, timeout=600)
             behs["dev:" + d] = b
     steps = matched = 0
     mism = []
@@ -481,7 +484,7 @@ def _dcl_lockstep_stage(prop, thorough, sd):
                 ls.close()
             k += 1 if tr["mismatch"] else 0
         div[d] = k
-        if k == 0 and steps == matched:
+        if k == 0 and steps == matched and d != "DupRequestReprocessed":    # (needs id reuse + a lost response: rare)
             raise T.MachineryError("lock-step binding lost: behaviours of DcLifecycle with %s agree with the code" % d)
     out["lifecycle_lockstep_deviating_models_diverge"] = div
     return out, traces
